@@ -9,8 +9,8 @@ ID = 'C03'
 ENGINE = 'E1 choice-point explorer: full product on the first channel, deviation-bounded elsewhere'
 RULE = ("per (dtype, source kind) shard: full product of byte order x shape {scalar,(R,1),(R,2),(R,3),wider than a "
         "record} x layout {C,F,strided,read-only,view} on the first channel; rows, channel count, second/third channel "
-        "attributes, cast, value-palette offset, input chunk and record length explored up to the deviation bound from "
-        "the default; values are bit patterns (extremes, +-0, +-inf, quiet/signalling NaN payloads, denormals); "
+        "attributes, cast, value-palette offset, input chunk, record length and an earlier write of the same objects "
+        "with data of another dtype / other values explored up to the deviation bound from the default; values are bit patterns (extremes, +-0, +-inf, quiet/signalling NaN payloads, denormals); "
         "non-trivial = file written and every row compared bit for bit")
 ASSUMPTIONS = ["strict reader mc/rp66.py", "reference model mc/model.py", "numpy astype defines the result of a "
                "declared cast (float->int and narrowing int casts are outside the alphabet)"]
@@ -76,7 +76,9 @@ def body(ctx, shard):
         chans.append(_channel(ctx, i, dt, src, rows, vrl, False))
     chunk = ctx.choose('chunk', [None, 1, 2, 'R', 'R+1'])
     chunk = rows if chunk == 'R' else rows + 1 if chunk == 'R+1' else chunk
-    return run_built({'src': src, 'vrl': vrl, 'chans': chans, 'chunk': chunk})
+    # the same objects may have been written before with data of another dtype / other values (dict source only)
+    earlier = ctx.choose('earlier-write', ['none', 'other-dtype', 'same-dtype-other-values']) if src == 'dict' else 'none'
+    return run_built({'src': src, 'vrl': vrl, 'chans': chans, 'chunk': chunk, 'earlier': earlier})
 
 
 def make_spec(c):
@@ -106,9 +108,46 @@ def make_spec(c):
     return sp
 
 
+OTHER_DTYPE = {'float64': 'float32', 'float32': 'float64', 'int32': 'uint8', 'uint8': 'int32', 'int8': 'uint16',
+               'int16': 'uint32', 'uint16': 'int8', 'uint32': 'int16'}
+
+
+def _earlier_write(c, sp):
+    """Build the objects, write them once with other data, then write the real data; returns a run_spec-like result."""
+    import os
+    from mc.engine import scratch_dir
+    b = S.build(sp)
+    res = {'status': b.status, 'failed_at': b.failed_at, 'write': 'skipped', 'data': None}
+    if b.failed_at is not None:
+        return res
+    first = {}
+    for i, ch in enumerate(c['chans']):
+        dt = OTHER_DTYPE[ch['dtype']] if c['earlier'] == 'other-dtype' else ch['dtype']
+        n = 1
+        for k in ch['shape']:
+            n *= k
+        p = PAL[dt]
+        first[f'CH{i}'] = S.make_array(S.arr_spec(dt, ch['shape'], [p[(k + 1) % len(p)] for k in range(n)]))
+    path = os.path.join(scratch_dir(), 'c03-first.dlis')
+    kw = S.write_kwargs(sp, b)
+    try:
+        b.df.write(path, **dict(kw, data=first))
+    except Exception as e:  # noqa
+        res['write'] = f"raised:first-write:{type(e).__name__}: {e}"
+        return res
+    path2 = os.path.join(scratch_dir(), 'out.dlis')
+    try:
+        b.df.write(path2, **kw)
+        res['write'] = 'ok'
+        res['data'] = open(path2, 'rb').read()
+    except Exception as e:  # noqa
+        res['write'] = f"raised:{type(e).__name__}: {e}"
+    return res
+
+
 def run_built(c):
     sp = make_spec(c)
-    res = S.run_spec(sp)
+    res = _earlier_write(c, sp) if c.get('earlier', 'none') != 'none' else S.run_spec(sp)
     viol = []
     if res['failed_at'] is not None:
         viol.append(("C03:build-raised", f"{res['status'][-1]} | {c}"))
@@ -123,6 +162,8 @@ def run_built(c):
             sig = f"C03:{code}"
             if code == 'row_bytes':
                 sig += ':' + _classify(c, d)
+            if c.get('earlier', 'none') != 'none':
+                sig += ':after-earlier-write'
             viol.append((sig, f"{d[:300]} | {_short(c)}"))
     except R.FormatError as e:
         viol.append((f"C03:unparsable:{e.code}", f"{e} | {_short(c)}"))
@@ -131,7 +172,7 @@ def run_built(c):
 
 
 def _short(c):
-    return {'src': c['src'], 'vrl': c['vrl'], 'chunk': c['chunk'],
+    return {'src': c['src'], 'vrl': c['vrl'], 'chunk': c['chunk'], 'earlier': c.get('earlier'),
             'chans': [{k: (v if k != 'pat' else f'<{len(v)} patterns>') for k, v in ch.items()} for ch in c['chans']]}
 
 
